@@ -1,44 +1,63 @@
 (* C10 for Maven and RubyGems: witnesses and structure-level facts about the canonical printers. *)
 From Coq Require Import Lia.
 From DepsDev Require Import Lib.Base Lib.Order Lib.BytesFacts Semver.Version Semver.Maven Semver.Gem Semver.MavenParse
-  Semver.GemParse Semver.GemDomain Semver.MavenDomain Semver.MavenPrintable Semver.Compare Semver.Generic_proofs Semver.Maven_proofs Semver.Gem_proofs.
+  Semver.GemParse Semver.GemDomain Semver.MavenDomain Semver.MavenPrintable Semver.Compare Semver.Generic_proofs Semver.Maven_proofs Semver.Gem_proofs Gen.MavenVariants.
 Local Open Scope Z_scope.
 
 (* ------------------------------------------------------------------ Maven *)
-(* the printer never writes the separator of the first element *)
-Lemma maven_canon_head l : maven_canon (head_sep0 l) = maven_canon l.
+(* the printer as found never writes the separator of the first element *)
+Lemma maven_canon_head l : maven_canon_with false (head_sep0 l) = maven_canon_with false l.
 Proof. destruct l; reflexivity. Qed.
 
-(* canon, re-parse, compare, canon again -- on strings *)
-Definition mvn_roundtrip (s : bytes) : option (bytes * option (Z * bytes)) :=
-  match mvn_parse s with
+(* canon, re-parse, compare, canon again -- on strings, by variant of the printer (h: a non-zero
+   first separator is printed) and of the zero test of the trimming loop (z) *)
+Definition mvn_roundtrip_with (h z : bool) (s : bytes) : option (bytes * option (Z * bytes)) :=
+  match mvn_parse_with z s with
   | Some (Ok v) =>
-      let c := canon true v in
-      Some (c, match mvn_parse c with
-               | Some (Ok v2) => match compare v v2 with Ok z => Some (z, canon true v2) | _ => None end
+      let c := maven_canon_with h (mvn_elems v) in
+      Some (c, match mvn_parse_with z c with
+               | Some (Ok v2) =>
+                   match maven_compare (mvn_elems v) (mvn_elems v2) with
+                   | Ok r => Some (r, maven_canon_with h (mvn_elems v2))
+                   | _ => None
+                   end
                | _ => None
                end)
   | _ => None
   end.
+(* the variant of the tree *)
+Definition mvn_roundtrip (s : bytes) := mvn_roundtrip_with go_mvn_canon_head_sep mvn_fix_zero_spelling s.
 
 Definition s_m1 : bytes := [45; 49]%N.       (* -1 *)
 Definition s_one : bytes := [49]%N.          (* 1 *)
 
-(* F-C10-2: -1 prints as 1, which re-parses to a version that compares 45 against the original *)
-Lemma maven_leadsep_witness :
-  mvn_roundtrip s_m1 = Some (s_one, Some (45, s_one)) /\ mvn_roundtrip s_one = Some (s_one, Some (0, s_one)).
-Proof. vm_compute. split; reflexivity. Qed.
+(* F-C10-2: as found, -1 prints as 1, which re-parses to a version that compares 45 against the
+   original; with the first separator printed, -1 prints as -1 and goes round *)
+Lemma maven_leadsep_witness z :
+  mvn_roundtrip_with false z s_m1 = Some (s_one, Some (45, s_one)) /\
+  mvn_roundtrip_with false z s_one = Some (s_one, Some (0, s_one)) /\
+  mvn_roundtrip_with true z s_m1 = Some (s_m1, Some (0, s_m1)) /\
+  mvn_roundtrip_with true z s_one = Some (s_one, Some (0, s_one)).
+Proof. destruct z; vm_compute; repeat split; reflexivity. Qed.
 
-Definition mvn_cmp_str (a b : bytes) : option Z :=
-  match mvn_parse a, mvn_parse b with
-  | Some (Ok va), Some (Ok vb) => match compare va vb with Ok z => Some z | _ => None end
+Definition mvn_cmp_str (z : bool) (a b : bytes) : option Z :=
+  match mvn_parse_with z a, mvn_parse_with z b with
+  | Some (Ok va), Some (Ok vb) => match compare va vb with Ok r => Some r | _ => None end
   | _, _ => None
   end.
-Lemma maven_inj_witness : mvn_cmp_str s_m1 s_one = Some 45.
-Proof. vm_compute. reflexivity. Qed.
+Lemma maven_inj_witness z : mvn_cmp_str z s_m1 s_one = Some 45.
+Proof. destruct z; vm_compute; reflexivity. Qed.
+
+(* what the tree does with the witness *)
+Lemma maven_leadsep_tree :
+  mvn_roundtrip s_m1 = if go_mvn_canon_head_sep then Some (s_m1, Some (0, s_m1)) else Some (s_one, Some (45, s_one)).
+Proof.
+  unfold mvn_roundtrip. destruct (maven_leadsep_witness mvn_fix_zero_spelling) as [A [_ [B _]]].
+  destruct go_mvn_canon_head_sep; auto.
+Qed.
 
 (* if the canonical string re-parses to the same elements up to the first separator, then
-   clause 2 holds exactly when the first separator was 0, and clause 3 (idempotence) holds *)
+   clause 2 holds exactly when the first separator was 0 *)
 Lemma maven_reparse_same l : d_mvn_wide (head_sep0 l) = true -> l = head_sep0 l ->
   maven_compare l (head_sep0 l) = Ok 0.
 Proof.
